@@ -57,6 +57,17 @@ type Conn struct {
 	FaultAt func(op string, idx int) *Fault
 	// MaxRead caps the bytes returned by one Read (0 = no cap)
 	MaxRead int
+	// PipeTo makes this the local end of an in-memory link: bytes written here become
+	// inbound segments of PipeTo, re-segmented at the absolute stream offsets PipeCuts
+	// (a segment never spans a cut; consecutive writes between two cuts coalesce while
+	// unread), each cut adding PipeGap of virtual delay. Close delivers EOF to the peer.
+	PipeTo     *Conn
+	PipeCuts   []int
+	PipeGap    []time.Duration
+	pipeOff    int
+	pipeLag    time.Duration
+	cutsSeen   int
+	lastWasCut bool
 
 	inIdx, inOff int
 	rdl, wdl     time.Time
@@ -247,6 +258,9 @@ func (c *Conn) Write(p []byte) (int, error) {
 	if c.Echo && n > 0 {
 		c.In = append(c.In, Event{At: now(), Data: append([]byte{}, p[:n]...)})
 	}
+	if c.PipeTo != nil && n > 0 {
+		c.pipe(p[:n])
+	}
 	c.log("Write", n, err, p, f)
 	return n, err
 }
@@ -262,6 +276,9 @@ func (c *Conn) Close() error {
 	}
 	c.Closed = true
 	c.ClosedAt = now()
+	if c.PipeTo != nil {
+		c.PipeTo.In = append(c.PipeTo.In, Event{At: now() + c.pipeLag, Err: eof()})
+	}
 	var err error
 	if f != nil {
 		err = f.Err
@@ -321,3 +338,41 @@ var (
 
 // Timeout returns a runtime-shaped timeout error.
 func Timeout() error { return timeoutErr{} }
+
+// pipe forwards written bytes to the peer as inbound segments.
+func (c *Conn) pipe(p []byte) {
+	peer := c.PipeTo
+	for len(p) > 0 {
+		// next cut strictly after the current offset
+		n := len(p)
+		cutHere := false
+		for _, cut := range c.PipeCuts {
+			if cut > c.pipeOff && cut-c.pipeOff <= n {
+				if cut-c.pipeOff < n || true {
+					n = cut - c.pipeOff
+					cutHere = true
+				}
+				break
+			}
+		}
+		piece := append([]byte{}, p[:n]...)
+		at := now() + c.pipeLag
+		// coalesce with the last pending, completely unread segment of the same instant
+		li := len(peer.In) - 1
+		if li >= 0 && (li > peer.inIdx || (li == peer.inIdx && peer.inOff == 0)) && peer.In[li].Err == nil && peer.In[li].At == at && !c.lastWasCut {
+			peer.In[li].Data = append(peer.In[li].Data, piece...)
+		} else {
+			peer.In = append(peer.In, Event{At: at, Data: piece})
+		}
+		c.lastWasCut = false
+		c.pipeOff += n
+		p = p[n:]
+		if cutHere {
+			c.lastWasCut = true
+			if len(c.PipeGap) > 0 {
+				c.pipeLag += c.PipeGap[c.cutsSeen%len(c.PipeGap)]
+			}
+			c.cutsSeen++
+		}
+	}
+}
